@@ -204,7 +204,16 @@ pub fn run_batch(property: &str, tier: Tier, base_seed: u64, classes: &[ClassSpe
                     let c = &classes[ci];
                     let seed = job_seed(base_seed, property, ci, i);
                     let plan = c.scenario.gen(property, c.class, seed, i, tier);
-                    let rec = execute(c.scenario, &plan, env);
+                    let rec = match std::panic::catch_unwind(std::panic::AssertUnwindSafe(|| execute(c.scenario, &plan, env))) {
+                        Ok(r) => r,
+                        Err(_) => {
+                            // a panic in harness code (not in the library: those are caught inside the facade)
+                            let loc = simtypes::take_panic().unwrap_or_default();
+                            eprintln!("harness error: scenario {} class {} seed {} panicked at {}", c.scenario.name(), c.class, seed, loc);
+                            eprintln!("plan: {}", serde_json::to_string(&plan).unwrap_or_default());
+                            std::process::exit(2);
+                        }
+                    };
                     current[t].store(u64::MAX, Ordering::Relaxed);
                     let keep_plan = !rec.violations.is_empty() || i < 2;
                     let sum = RunSummary {
